@@ -326,6 +326,26 @@ theorem program_eventually_deterministic (t : Term) (k : Kind) (hk : t.kind = so
       · exact aux_agrees_last_map (List.filter p) _ _ iht
       · exact aux_agrees_last_map (List.filter p) _ _ iht
 
+/-! ### the stream-level meaning is the expected list function -/
+
+/-- `enumerate` numbers the whole stream 0, 1, 2, … -/
+theorem spec_enumerate_eq_zipIdx (t : Term) (I : Nat → List Val) :
+    spec (.enumerate t) I = ((spec t I).zipIdx 0).map (fun p => Val.pair (.int p.2) p.1) := by
+  simp [spec, aux_enum]
+
+/-- `unique` keeps the first occurrence of every element, in order -/
+theorem spec_unique_dedup (t : Term) (I : Nat → List Val) :
+    (spec (.unique t) I).Nodup ∧ (∀ y, y ∈ spec (.unique t) I ↔ y ∈ spec t I) ∧
+    (spec (.unique t) I).Sublist (spec t I) := by
+  simp only [spec]
+  exact ⟨aux_uniq_nodup _ _, fun y => by simp [aux_uniq_mem], aux_uniq_sublist _ _⟩
+
+/-- `reduce` is the left fold seeded with the first element -/
+theorem spec_reduce (f : Val → Val → Val) (t : Term) (I : Nat → List Val) :
+    spec (.reduce f t) I = match spec t I with | [] => [] | x :: xs => [xs.foldl f x] := by
+  simp only [spec, aux_reduce]
+  cases spec t I <;> rfl
+
 /-! ### consequences -/
 
 /-- what an observer reads off the emitted batches once all inputs are processed -/
